@@ -53,7 +53,7 @@ KF_C20_sticky_flag(ev) == FALSE
 (* C20-debug-abidiff-false-alarms: `abidw --debug-abidiff` prints "error: wrong canonical type for 'function type ...'" for    *)
 (* the type of every function-decl read back from ABIXML (such types carry no type-id) and "error: no type with type-id ...    *)
 (* could be read back from the typeid file" for the `void` type-decl (cf. C03-void-type-position); the run ends with status 0.  *)
-KF_C20_debug_abidiff(ev) == FALSE
+KF_C20_debug_abidiff(ev) == ev.errFnType = 0 /\ ev.errTypeId > 0 /\ ev.typeIdsAreVoid
 (* ------------------------------------------------------------------------------------------------------------------------ *)
 
 Get(f, x) == IF x \in DOMAIN f THEN f[x] ELSE 0
@@ -100,7 +100,7 @@ VDebugRun(ev) == IF ev.tcDiffers # 0 THEN (IF KF_C20_cycle(ev) THEN "kf:C20-cycl
                  ELSE IF ev.ret # "ok" THEN "bad:debug-check-aborted:" \o ev.mode
                  ELSE IF ev.errOther # 0 THEN "bad:debug-check-reported-an-error:" \o ev.mode
                  ELSE IF ev.errFnType + ev.errTypeId # 0
-                      THEN (IF ev.mode = "abidiff" /\ ev.exit = 0 /\ KF_C20_debug_abidiff(ev) THEN "kf:C20-debug-abidiff-false-alarms"
+                      THEN (IF ev.mode = "abidiff" /\ ev.exit = 0 /\ KF_C20_debug_abidiff(ev) THEN "kf:C20-debug-abidiff-void-type-id"
                             ELSE IF ev.errTypeId # 0 THEN "bad:debug-check-type-id-not-read-back:" \o ev.mode
                             ELSE "bad:debug-check-wrong-canonical-type-for-function-type:" \o ev.mode)
                  ELSE IF ev.exit # 0 THEN "bad:debug-check-failed:" \o ev.mode ELSE "ok"
